@@ -69,7 +69,7 @@ Local Open Scope nat_scope.
 
 Inductive tstep_spec (g : prog) (i : nat) (t : thr) (L : lock) : thr -> lock -> Prop :=
 | ts_skip pc nd pc' c :
-    t_pc t = PAt pc -> nth_error g pc = Some nd -> p_op nd = OSkip -> next_pc nd c = Some pc' ->
+    t_pc t = PAt pc -> nth_error g pc = Some nd -> (p_op nd = OSkip \/ p_op nd = OBlock) -> next_pc nd c = Some pc' ->
     tstep_spec g i t L {| t_pc := pc'; t_r := t_r t; t_w := t_w t |} L
 | ts_rlock pc nd pc' c :
     t_pc t = PAt pc -> nth_error g pc = Some nd -> p_op nd = ORLock -> next_pc nd c = Some pc' ->
@@ -106,6 +106,8 @@ Proof.
   exists t. destruct (t_pc t) as [pc|pc|] eqn:Epc; [| |discriminate].
   - destruct (nth_error g pc) as [nd|] eqn:End; [|discriminate].
     destruct (p_op nd) eqn:Eop.
+    + destruct (next_pc nd c) as [pc'|] eqn:En; [|discriminate]. injection H as <-.
+      do 2 eexists. split; [reflexivity|]. split; [|reflexivity]. eapply ts_skip; eauto.
     + destruct (next_pc nd c) as [pc'|] eqn:En; [|discriminate]. injection H as <-.
       do 2 eexists. split; [reflexivity|]. split; [|reflexivity]. eapply ts_skip; eauto.
     + destruct (l_writer (s_lock s)) eqn:Ew; try discriminate.
@@ -290,7 +292,8 @@ Section WF.
       - (* skip *)
         unfold thr_ok in Hok; rewrite Epc in Hok. destruct Hok as (h & Hh & Hho).
         destruct (wf_node pc h Hh) as (nd' & h' & End' & Htr & Hend & Hsucc).
-        rewrite End in End'; injection End' as <-. rewrite Eop in Htr; cbn in Htr; injection Htr as <-.
+        rewrite End in End'; injection End' as <-.
+        assert (h' = h) as -> by (destruct Eop as [Eop|Eop]; rewrite Eop in Htr; destruct h; cbn in Htr; congruence).
         split; [|split].
         + eapply thr_ok_moved; eauto.
         + cbn [t_r] in Hsum. lia.
@@ -523,6 +526,87 @@ Section WF.
         destruct (done_holds_nothing s tk HI Hin Epc). congruence.
   Qed.
 
+  (* The lock is never wedged: whenever it is not free, a thread that holds it (or the announced
+     writer once the readers have drained) can take its next step, and that step does not wait for
+     anything foreign (no acquisition of another mutex inside the critical section). *)
+  Definition foreign_wait (t : thr) : bool :=
+    match t_pc t with
+    | PAt pc => match nth_error g pc with
+                | Some nd => match p_op nd with OBlock => true | _ => false end
+                | None => false
+                end
+    | _ => false
+    end.
+
+  Definition involved (t : thr) : bool :=
+    (0 <? t_r t) || t_w t || match t_pc t with PAnn _ => true | _ => false end.
+
+  Lemma reader_moves s i t :
+    Inv s -> nth_error (s_threads s) i = Some t -> t_r t <> 0 ->
+    (forall pc, t_pc t <> PAnn pc) ->
+    foreign_wait t = false /\ exists s', cstep g s (i, 0) = Some s'.
+  Proof.
+    intros HI Hi Hr Hna. pose proof HI as (Hthr & Hrd & Hw).
+    pose proof (Hthr i t Hi) as Hok.
+    destruct (t_pc t) as [pc|pc|] eqn:Epc.
+    - unfold thr_ok in Hok; rewrite Epc in Hok. destruct Hok as (h & Hh & Hho).
+      destruct (wf_node pc h Hh) as (nd & h' & End & Htr & _ & _).
+      destruct (succ_choice nd) as [pc' Hn].
+      assert (h = HR) as ->.
+      { unfold hold_of in Hho. destruct (t_r t) as [|[|?]]; destruct (t_w t); try discriminate; try lia; congruence. }
+      unfold foreign_wait, cstep. rewrite Hi, Epc, End.
+      destruct (p_op nd) eqn:Eop; cbn in Htr; try discriminate; rewrite ?Hn; split; eauto.
+      destruct (t_r t); [lia|]. eauto.
+    - exfalso. eapply Hna; eauto.
+    - exfalso. assert (In t (s_threads s)) as Hin by (eapply nth_error_In; eauto).
+      destruct (done_holds_nothing s t HI Hin Epc). lia.
+  Qed.
+
+  Lemma never_wedged s :
+    Inv s -> s_lock s <> free_lock ->
+    exists i t s', nth_error (s_threads s) i = Some t /\ involved t = true /\
+                   foreign_wait t = false /\ cstep g s (i, 0) = Some s'.
+  Proof.
+    intros HI Hnf. pose proof HI as (Hthr & Hrd & Hw).
+    destruct (l_writer (s_lock s)) as [|k|k] eqn:Ew; cbn [writer_ok] in Hw.
+    - (* readers only *)
+      destruct (Nat.eq_dec (l_readers (s_lock s)) 0) as [Er|Er].
+      { exfalso. apply Hnf. clear Hrd Hnf. destruct (s_lock s) as [r w]; cbn [l_readers l_writer] in *. subst. reflexivity. }
+      destruct (sum_pos_ex (s_threads s)) as (i & t & Hi & Hr); [rewrite <- Hrd; exact Er|].
+      destruct (reader_moves s i t HI Hi Hr (proj2 (Hw i t Hi))) as (Hf & s' & Hs).
+      exists i, t, s'. repeat split; auto. unfold involved. destruct (t_r t); [lia|reflexivity].
+    - destruct Hw as [(tk & pck & Hk & Hpk) Hall].
+      destruct (l_readers (s_lock s)) as [|r] eqn:Er.
+      + pose proof (Hthr k tk Hk) as Hok. unfold thr_ok in Hok; rewrite Hpk in Hok.
+        destruct Hok as (_ & _ & nd & End & _). destruct (succ_choice nd) as [pc' Hn].
+        exists k, tk. eexists. split; [exact Hk|]. split; [unfold involved; rewrite Hpk; apply orb_true_r|].
+        split; [unfold foreign_wait; rewrite Hpk; reflexivity|].
+        unfold cstep. rewrite Hk, Hpk, End, Er, Ew, Hn, Nat.eqb_refl. reflexivity.
+      + destruct (sum_pos_ex (s_threads s)) as (i & t & Hi & Hr); [rewrite <- Hrd; lia|].
+        assert (Hik : i <> k).
+        { intros ->. rewrite Hk in Hi; injection Hi as <-. pose proof (Hthr k tk Hk) as Hokk.
+          unfold thr_ok in Hokk; rewrite Hpk in Hokk. destruct Hokk as (Hho & _).
+          unfold hold_of in Hho. destruct (t_r tk) as [|[|?]]; destruct (t_w tk); try discriminate; lia. }
+        destruct (reader_moves s i t HI Hi Hr (proj2 (Hall i t Hi) Hik)) as (Hf & s' & Hs).
+        exists i, t, s'. repeat split; auto. unfold involved. destruct (t_r t); [lia|reflexivity].
+    - destruct Hw as [(tk & Hk & Hwk) Hall].
+      pose proof (Hthr k tk Hk) as Hok. destruct (Hall k tk Hk) as [_ Hna].
+      destruct (t_pc tk) as [pc|pc|] eqn:Epc.
+      + unfold thr_ok in Hok; rewrite Epc in Hok. destruct Hok as (h & Hh & Hho).
+        destruct (wf_node pc h Hh) as (nd & h' & End & Htr & _ & _).
+        destruct (succ_choice nd) as [pc' Hn].
+        assert (h = HW) as ->.
+        { unfold hold_of in Hho. rewrite Hwk in Hho. destruct (t_r tk) as [|[|?]]; congruence. }
+        exists k, tk.
+        assert (Hinv : involved tk = true) by (unfold involved; rewrite Hwk; apply orb_true_iff; left; apply orb_true_r).
+        unfold foreign_wait, cstep. rewrite Hk, Epc, End.
+        destruct (p_op nd) eqn:Eop; cbn in Htr; try discriminate; rewrite ?Hn, ?Ew, ?Hwk, ?Hn, ?Nat.eqb_refl;
+          eexists; (split; [reflexivity|]); (split; [exact Hinv|]); split; reflexivity.
+      + exfalso; eapply Hna; eauto.
+      + exfalso. assert (In tk (s_threads s)) as Hin by (eapply nth_error_In; eauto).
+        destruct (done_holds_nothing s tk HI Hin Epc). congruence.
+  Qed.
+
   (* counters = threads' program counters *)
   Lemma static_hold_of t : thr_ok t -> static_hold ls t = hold_of t.
   Proof.
@@ -686,6 +770,10 @@ Proof. exact (fun H => H). Qed.
 Lemma wf_graph_mutex g entries mu :
   wf_graph g entries = true -> In mu (mutexes_of g) -> wf_prog (project mu g) entries = true.
 Proof. unfold wf_graph. rewrite forallb_forall. auto. Qed.
+
+Lemma leaf_mutex_wf g entries mu :
+  In mu (leaf_mutexes g entries) -> wf_prog (project_leaf mu g) entries = true.
+Proof. unfold leaf_mutexes. intro H. apply filter_In in H as [_ H]. exact H. Qed.
 
 Lemma all_finished_false_iff s : all_finished s = false <-> exists t, In t (s_threads s) /\ t_pc t <> PDone.
 Proof.
